@@ -74,15 +74,20 @@ def _make_pca(npcs_seq, log):
             log.append(("pca.init", ev))
             self.k = npcs_seq[min(count[0], len(npcs_seq) - 1)]
             count[0] += 1
-            self.components_ = [None] * self.k
+            self.components_ = np.zeros((self.k, 0))
 
         def fit(self, X):
-            log.append(("pca.fit", np.asarray(X, dtype=float).copy()))
+            X = np.asarray(X, dtype=float)
+            log.append(("pca.fit", X.copy()))
+            # like sklearn: the data are centred on the fitted mean before projecting (a projection that skips
+            # `transform` and multiplies by components_ itself is then a different value; seed C11-9)
+            self.mean_ = X.mean(axis=0)
+            self.components_ = np.eye(X.shape[1])[: self.k]
 
         def transform(self, X):
             X = np.asarray(X, dtype=float)
             log.append(("pca.transform", X.copy()))
-            return X[:, : self.k] * 1.0
+            return (X - self.mean_)[:, : self.k] * 1.0
 
     return FakePCA
 
@@ -181,7 +186,8 @@ def body_run(ctx, w, npcs, metric, scaling, period, seed, N=None, npcs_after=Non
                     proj = [e[1] for e in log if e[0] == "pca.transform"]
                     ctx.prove(len(proj) == 2 and np.allclose(proj[0], tr(R)) and np.allclose(proj[1], tr(T)),
                               "both-windows-projected (scaled iff online_scaling)")
-                    ref_proj, test_proj = tr(R)[:, :npcs], tr(T)[:, :npcs]
+                    mu = tr(R).mean(axis=0)  # what the (stand-in) PCA centres on: the mean of the window it was fitted on
+                    ref_proj, test_proj = (tr(R) - mu)[:, :npcs], (tr(T) - mu)[:, :npcs]
                     ctx.prove(d.num_pcs == npcs, "num_pcs")
                     lower = [min(ref_proj[:, c].min(), test_proj[:, c].min()) for c in range(npcs)]
                     upper = [max(ref_proj[:, c].max(), test_proj[:, c].max()) for c in range(npcs)]
@@ -197,7 +203,7 @@ def body_run(ctx, w, npcs, metric, scaling, period, seed, N=None, npcs_after=Non
                 continue
             # ---- sliding phase
             test_raw = test_raw[1:] + [x[0]]
-            newp = tr(x)[:, :npcs][0].copy()
+            newp = (tr(x) - mu)[:, :npcs][0].copy()
             if metric == "intersection":
                 newp = np.array([min(max(newp[c], lower[c]), upper[c]) for c in range(npcs)])
             test_proj = np.vstack([test_proj[1:], newp])
